@@ -2619,10 +2619,14 @@ int32 matrixValidateCertsExt(psPool_t *pool, psX509Cert_t *subjectCerts,
                     break;
                 case GN_IP:
                     foundSupportedSAN = 1;
-                    if (opts->nameType == NAME_TYPE_ANY ||
-                        opts->nameType == NAME_TYPE_SAN_IP_ADDRESS)
+                    /* Only a four-octet (IPv4) address has a dotted form to
+                       compare with; the buffer must hold all 15 characters
+                       of 255.255.255.255 and the terminator. */
+                    if ((opts->nameType == NAME_TYPE_ANY ||
+                         opts->nameType == NAME_TYPE_SAN_IP_ADDRESS) &&
+                        n->dataLen == 4)
                     {
-                        Snprintf(ip, 15, "%u.%u.%u.%u",
+                        Snprintf(ip, sizeof(ip), "%u.%u.%u.%u",
                             (unsigned char) (n->data[0]),
                             (unsigned char ) (n->data[1]),
                             (unsigned char ) (n->data[2]),
